@@ -26,7 +26,7 @@ U64 = (1 << 64) - 1
 
 ALL_FNS = ["MaxU64", "MinU64", "IntegerSquareroot", "IntegerSquareRootPrysm", "IsPowerOfTwo", "NextPowerOfTwo",
            "TimeToSlot", "TimeAtSlot", "SlotToEpoch", "SlotPrevious", "EpochPrevious", "EpochStartSlot",
-           "ComputeActivationExitEpoch", "GetChurnLimit", "ActivationChurnLimit", "CommitteeCount", "CheckSlotSpan",
+           "ComputeActivationExitEpoch", "GetChurnLimit", "ActivationChurnLimit", "ValidatorActivationChurnLimit", "CommitteeCount", "CheckSlotSpan",
            "VerifyMerkleBranch"]
 TRACE_ONLY_FNS = ["ActiveIndices", "Hash", "HashRepeat", "XorBytes32"]
 
@@ -234,6 +234,8 @@ REQUIRED_CLASSES = [
     "EpochStartSlot:last-representable", "EpochStartSlot:first-overflow",
     "ComputeActivationExitEpoch:last-representable", "ComputeActivationExitEpoch:first-overflow",
     "TimeToSlot:before-genesis", "TimeToSlot:at-genesis", "TimeToSlot:slot-edge",
+    "ValidatorActivationChurnLimit:cap-below-min", "ValidatorActivationChurnLimit:cap-zero-below-min",
+    "ValidatorActivationChurnLimit:cap-equals-min", "ValidatorActivationChurnLimit:cap-above-min",
     "GetChurnLimit:quotient-edge", "GetChurnLimit:min-edge", "CommitteeCount:count-edge", "CommitteeCount:max-edge",
     "CheckSlotSpan:old-edge", "CheckSlotSpan:new-edge", "CheckSlotSpan:sum-overflow",
     "VerifyMerkleBranch:honest", "VerifyMerkleBranch:accepted", "VerifyMerkleBranch:rejected",
@@ -291,14 +293,24 @@ def check(tier, seed, save_prefix="run"):
         with open(path) as f:
             all_lines = f.readlines()
         sample = all_lines[(len(all_lines) * 2) // 3].strip()
+        # guarded boundary counter: TLC-enumerated activation-churn cases whose cap is below the minimum churn
+        capmin = 0
+        for l in all_lines:
+            if '"ValidatorActivationChurnLimit"' in l:
+                a = json.loads(l)["a"]
+                if from_limbs(a[3]) < from_limbs(a[1]):
+                    capmin += 1
+        summary["activation_cap_below_min_churn"] = capmin
         return part, tid, n, res, summary, mism, sample
 
     replayed = 0
     distinct = set()
+    cap_below_min = {"spec->code": 0, "code->spec": 0}
     for part, tid, n, res, summary, mism, sample in lib.parallel_map(do, jobs, workers=min(len(jobs), lib.NCPU)):
         cov["states"] += res.distinct
         cov["transitions"] += res.generated
         replayed += n
+        cap_below_min["spec->code"] += summary.get("activation_cap_below_min_churn", 0)
         for fn, c in summary["per_fn"].items():
             cov["per_fn_replayed"][fn] = cov["per_fn_replayed"].get(fn, 0) + c
         if len(cov["samples"]) < 4:
@@ -335,6 +347,11 @@ def check(tier, seed, save_prefix="run"):
     for c in REQUIRED_CLASSES:
         if summary["classes"].get(c, 0) == 0:
             raise lib.InfraError("vacuous: boundary class %s never generated" % c)
+    cap_below_min["code->spec"] = (summary["classes"].get("ValidatorActivationChurnLimit:cap-below-min", 0) +
+                                   summary["classes"].get("ValidatorActivationChurnLimit:cap-zero-below-min", 0))
+    cov["activation_cap_below_min_churn"] = cap_below_min
+    if min(cap_below_min.values()) == 0:
+        raise lib.InfraError("vacuous: activation_cap_below_min_churn is zero (%s)" % cap_below_min)
     for ln in bad:
         ev = json.loads(lines[ln - 1])
         dev = deviation(ev)
@@ -435,6 +452,9 @@ MUTANTS = {
                                 "for i := uint64(0); i+1 < depth; i++ {"),
     "nextpow2-no-decrement": ("eth2/util/math/math_util.go", "\tv--\n", "\n"),
     "timeatslot-no-overflow-check": ("eth2/beacon/common/time.go", "if slot >= Slot(max) {", "if false && slot >= Slot(max) {"),
+    "activation-churn-lower-clamp": ("eth2/beacon/deneb/registry.go",
+                                     "return min(uint64(spec.MAX_PER_EPOCH_ACTIVATION_CHURN_LIMIT), phase0ChurnLimit)",
+                                     "return max(uint64(spec.MIN_PER_EPOCH_CHURN_LIMIT), min(uint64(spec.MAX_PER_EPOCH_ACTIVATION_CHURN_LIMIT), phase0ChurnLimit))"),
     "churn-min": ("eth2/beacon/common/time.go", "return math.MaxU64(uint64(spec.MIN_PER_EPOCH_CHURN_LIMIT)",
                   "return math.MinU64(uint64(spec.MIN_PER_EPOCH_CHURN_LIMIT)"),
     "slotspan-lt": ("eth2/gossipval/common.go", "slot > maxSlot {", "slot >= maxSlot {"),
